@@ -281,6 +281,14 @@ func c15JudgeLine(c *ev.Check, m *c15Map, sn Seen, in, nf, f *jt.Node, names map
 						c.Violation("operator-key-renamed|"+k, fmt.Sprintf("the operator / wrapper key %s at %s comes out as %q with --redactFieldNames: it is not a user-defined field name", k, jt.PathStr(path), trunc(ok, 60)), replayOf(sn, nil))
 					}
 				}
+				if len(path) == 2 && !c15Zones[k] && (k == "projection" || k == "hint" || k == "skip" || k == "limit" || k == "lsid" || k == "ordered" || k == "cursor") && i < len(b.Vals) {
+					// a member of the command document that is not query-bearing: --redactFieldNames adds only the plan
+					// summary to what may change, so it equals the run without the flag (which carries the same other switches)
+					c.Count("non_zone_command_members_compared", 1)
+					if !bytes.Equal(nodeBytes(e.Vals[i]), nodeBytes(b.Vals[i])) || ok != k {
+						c.Violation("non-zone-member-differs-from-flag-off|"+k, fmt.Sprintf("command member %s is %s without --redactFieldNames and %s: %s with it", k, short(nodeBytes(b.Vals[i]), 80), trunc(ok, 40), short(nodeBytes(e.Vals[i]), 80)), replayOf(sn, nil))
+					}
+				}
 				z := inZone || (len(path) == 2 && c15Zones[k])
 				if z && inZone && c15Planted(k, names) {
 					m.expect(c, k, ok, "key:"+zoneOf(path), sn)
